@@ -199,6 +199,15 @@ template<>
 FASTOR_INLINE void _transpose<float,16,16>(const float * FASTOR_RESTRICT a, float * FASTOR_RESTRICT out) {
     internal::_MM_TRANSPOSE16_PS(a,out);
 }
+#elif defined(FASTOR_AVX512F_IMPL)
+// Without AVX512DQ there is no 16x16 kernel; the blocked _transpose would otherwise
+// dispatch its 16x16 blocks back to itself and recurse for ever
+template<>
+FASTOR_INLINE void _transpose<float,16,16>(const float * FASTOR_RESTRICT a, float * FASTOR_RESTRICT out) {
+    for (size_t j=0; j<16; ++j)
+        for (size_t i=0; i<16; ++i)
+            out[j*16+i] = a[i*16+j];
+}
 #endif
 //----------------------------------------------------------------------------------------------------------//
 
